@@ -302,19 +302,32 @@ class ExprMixin:
                     continue
                 spine = self.concrete_items(s, v)
                 if spine is None:
-                    raise Unsupported("starred operand without a concrete spine in a display")
-                items.extend(spine)
+                    sq = self.as_seq(s, v)
+                    if sq is None:
+                        raise Unsupported("starred operand that is not a sequence in a display")
+                    items.append(_Splice(sq))
+                else:
+                    items.extend(spine)
             out.append((s, items))
         return out
 
     def e_Tuple(self, node, st):
-        return [(s, v if isinstance(v, Raised) else VTuple(tuple(v))) for s, v in self._display_items(node, st)]
+        out = []
+        for s, v in self._display_items(node, st):
+            if not isinstance(v, Raised) and any(isinstance(x, _Splice) for x in v):
+                raise Unsupported("starred operand without a concrete spine in a tuple display")
+            out.append((s, v if isinstance(v, Raised) else VTuple(tuple(v))))
+        return out
 
     def e_List(self, node, st):
         out = []
         for s, v in self._display_items(node, st):
             if isinstance(v, Raised):
                 out.append((s, v))
+            elif any(isinstance(x, _Splice) for x in v):
+                # a symbolic operand is spliced: the new list has a symbolic spine
+                parts = [x.seq if isinstance(x, _Splice) else z3.Unit(box(x)) for x in v]
+                out.append((s, s.alloc(HList(seq=parts[0] if len(parts) == 1 else z3.Concat(*parts)))))
             else:
                 out.append((s, s.alloc(HList(items=list(v)))))
         return out
@@ -1020,6 +1033,13 @@ class ExprMixin:
                     s1.locals[n] = old
             out.append((s1, acc if isinstance(acc, Raised) else s1.alloc(HList(seq=res, tail=acc))))
         return out
+
+
+class _Splice:
+    """`*x` in a list display where x has a symbolic spine"""
+
+    def __init__(self, seq):
+        self.seq = seq
 
 
 class _Done:
